@@ -9,6 +9,7 @@
    pins of the constants, and concrete examples. *)
 From RM Require Import Model.SliderEvents Model.Drv20 Gen.Generated.
 From RM Require Import Proofs.SliderEventsFacts Proofs.SliderEventsIEEE Proofs.SliderEventsExact.
+From RM Require Import Proofs.SliderEventsNeg.
 From Coq Require Import Reals Sorting.Sorted.
 Open Scope Z_scope.
 
@@ -110,6 +111,17 @@ Example C20_negative_length_panics :
   dump_out dump_evs (run ops64 true 50 50 (mkP (D.of_Z 0) (D.of_Z 1000) (D.of_Z 1) (D.of_Z 300) (D.of_Z (-1)) 2) [])
   = [1; 1].
 Proof. vm_compute. reflexivity. Qed.
+
+(* Outside the domain (the property requires span count >= 1), modelled
+   anyway: span count 0 is covered by the theorems above (head, last tick of
+   span -1, tail); with a NEGATIVE span count and overflow checks on, the
+   stream never completes: next() keeps generating spans until `*span += 1`
+   overflows (panic) -- in a release build the counter wraps instead. *)
+Theorem C20_negative_span_count_never_completes :
+  forall (fuel tf : nat) (p : params F64) (buf : list (event F64)) evs,
+  p_n p < 0 -> run ops64 true fuel tf p buf <> Done evs.
+Proof. intros fuel tf p buf evs. exact (run_negative_never_done ops64 tf fuel p buf evs). Qed.
+Print Assumptions C20_negative_span_count_never_completes.
 
 (* ---------- structure and closed forms of the eager list ---------- *)
 
